@@ -227,6 +227,10 @@ theorem OStep.armReplay (o : Outbound) : OStep o o.armReplay := by
     exact unDup_setDup l
   · rw [he]; exact Keeps.refl o
 
+theorem OStep.dropPingreq (o : Outbound) : OStep o o.dropPingreq := OStep.same rfl rfl rfl rfl
+
+theorem OStep.rearm (o : Outbound) : OStep o o.rearm := (OStep.dropPingreq o).trans (OStep.armReplay _)
+
 theorem OStep.clear (o : Outbound) : OStep o o.clear := by
   intro ⟨h, hser⟩
   exact ⟨⟨ArenaInv_clear o h, ⟨by simp [Outbound.clear], by simp [Outbound.clear]⟩⟩,
@@ -416,7 +420,7 @@ theorem closed_ArenaP (o0 : Outbound) : Closed (ArenaP o0) where
     intro s p h
     apply h.step
     rw [Session.handle_fst_data]; exact handlePacket_OStep s.data s.rt p
-  handleDisconnect := by intro s h; exact h.step (OStep.armReplay _)
+  handleDisconnect := by intro s h; exact h.step (OStep.rearm _)
   activate := by
     intro s sp block now h
     unfold Session.activate
@@ -426,7 +430,7 @@ theorem closed_ArenaP (o0 : Outbound) : Closed (ArenaP o0) where
       · exact h.step (OStep.clear _)
       · exact h
     split
-    · exact h0.step (OStep.armReplay _)
+    · exact h0.step (OStep.rearm _)
     · exact h0.step (OStep.refl _)
   alloc := by
     intro s h
@@ -472,7 +476,7 @@ theorem closed_ArenaP (o0 : Outbound) : Closed (ArenaP o0) where
     · simp at hw
     · simp at hw; rw [← hw.1]; exact h
   commit := by intro s bytes h; exact h
-  beginConnect := by intro s h; exact h.step (OStep.armReplay _)
+  beginConnect := by intro s h; exact h.step (OStep.rearm _)
   setPid := by intro s n _ _ h; exact h
 
 end Minimq
